@@ -418,3 +418,61 @@ func RapidCheck(t *testing.T, name string, n int, salt int64, prop func(*rapid.T
 		rapid.Check(t, prop)
 	})
 }
+
+// Absorb merges the JSON result written by another recorder (a worker
+// subprocess of the same check) into r.
+func (r *Rec) Absorb(path string) error {
+	data, err := os.ReadFile(path)
+	if err != nil {
+		return err
+	}
+	var o struct {
+		Evaluations  int64          `json:"evaluations"`
+		Classes      map[string]int `json:"classes"`
+		Excluded     map[string]int `json:"excluded"`
+		Inconclusive map[string]int `json:"inconclusive"`
+		NonTrivial   []string       `json:"nontrivial_hashes"`
+		Samples      []any          `json:"samples"`
+		Notes        map[string]any `json:"notes"`
+		Violations   []*Violation   `json:"violations"`
+		Completed    bool           `json:"completed"`
+	}
+	if err := json.Unmarshal(data, &o); err != nil {
+		return err
+	}
+	r.mu.Lock()
+	defer r.mu.Unlock()
+	r.Evaluations += o.Evaluations
+	for k, v := range o.Classes {
+		r.Classes[k] += v
+	}
+	for k, v := range o.Excluded {
+		r.Excluded[k] += v
+	}
+	for k, v := range o.Inconclusive {
+		r.Inconclusive[k] += v
+	}
+	for _, h := range o.NonTrivial {
+		r.nt[h] = struct{}{}
+	}
+	for _, s := range o.Samples {
+		if len(r.Samples) < r.maxSamp {
+			r.Samples = append(r.Samples, s)
+		}
+	}
+	for k, v := range o.Notes {
+		r.Notes[k] = v
+	}
+	for _, v := range o.Violations {
+		if cur := r.viol[v.Sig]; cur != nil {
+			cur.Count += v.Count
+			continue
+		}
+		r.viol[v.Sig] = v
+		r.Violations = append(r.Violations, v)
+	}
+	if !o.Completed {
+		return fmt.Errorf("worker result %s is not complete", path)
+	}
+	return nil
+}
